@@ -1,5 +1,5 @@
 //! Replay driver for C19 (unit U-udpmgr): the REAL sozu_lib::protocol::udp::UdpManager through its public API.
-//! usage: c19_udpmgr cap
+//! usage: c19_udpmgr cap | sticky
 //! Explores every sequence of up to 7 operations over {new client datagram, datagram on an existing flow,
 //! SetMaxFlows(0..=4), abort the oldest flow, Drain} from a cap of 3 and checks, after each step, against a
 //! reference model of the cap: a datagram from an untracked source creates a flow iff the manager is not draining
@@ -89,7 +89,69 @@ fn run(seq: &[Op]) -> Option<String> {
     None
 }
 
-fn main() {
+fn sticky() {
+    // two clients, each resolved to its own backend; every datagram / reply must go to the flow's own peer, intact,
+    // once; a late or duplicate resolution towards another address must not rebind a flow
+    const REQ: &str = "datagrams of a flow go to one and the same backend, replies only to that flow's client, never duplicated or altered";
+    let cfg = ClusterConfig { cluster: "c".to_owned(), affinity_with_port: true, front_timeout: Duration::from_secs(30),
+                              back_timeout: Duration::from_secs(30), ..Default::default() };
+    let b = |n: u8| SocketAddr::new(IpAddr::V4(Ipv4Addr::new(127, 0, 0, n)), 5300);
+    #[derive(Clone, Copy, Debug)]
+    enum S { C(usize), R(usize), Late(usize), Dup(usize) }
+    let steps = [S::C(0), S::C(1), S::R(0), S::R(1), S::Late(0), S::Dup(1)];
+    let depth = 5;
+    let mut idx = vec![0usize; depth];
+    let mut n = 0u64;
+    loop {
+        let seq: Vec<S> = idx.iter().map(|&i| steps[i]).collect();
+        n += 1;
+        let mut m = UdpManager::new(cfg.clone(), 8, 65535, 7);
+        let now = Instant::now();
+        let mut flows: Vec<FlowId> = Vec::new();
+        for c in 0..2usize {
+            m.handle_input(ManagerInput::ClientDatagram { src: client(1 + c as u8), payload: b"first" }, now);
+            let f = drain(&mut m).iter().find_map(|o| match o { Output::SelectBackend { flow, .. } => Some(*flow), _ => None }).expect("admitted");
+            m.handle_input(ManagerInput::BackendResolved { flow: f, backend: format!("b{c}"), addr: b(1 + c as u8) }, now);
+            drain(&mut m);
+            flows.push(f);
+        }
+        for (i, st) in seq.iter().enumerate() {
+            let payload = format!("p{i}").into_bytes();
+            let bad = |what: String| -> ! { out(true, "sticky", format!("2 clients resolved to 127.0.0.1 / 127.0.0.2; {seq:?}"), format!("step {i} ({st:?}): {what}"), REQ) };
+            match *st {
+                S::C(c) => {
+                    m.handle_input(ManagerInput::ClientDatagram { src: client(1 + c as u8), payload: &payload }, now);
+                    let outs = drain(&mut m);
+                    let sends: Vec<_> = outs.iter().filter_map(|o| match o { Output::SendToBackend(t) => Some(t.clone()), _ => None }).collect();
+                    if outs.iter().any(|o| matches!(o, Output::SendToClient(_))) { bad("a client datagram produced a SendToClient".into()) }
+                    if sends.len() != 1 || sends[0].dst != b(1 + c as u8) || sends[0].payload != payload { bad(format!("SendToBackend outputs = {sends:?}, expected exactly one to {} carrying {payload:?}", b(1 + c as u8))) }
+                }
+                S::R(c) => {
+                    m.handle_input(ManagerInput::BackendDatagram { flow: flows[c], payload: &payload }, now);
+                    let outs = drain(&mut m);
+                    let sends: Vec<_> = outs.iter().filter_map(|o| match o { Output::SendToClient(t) => Some(t.clone()), _ => None }).collect();
+                    if outs.iter().any(|o| matches!(o, Output::SendToBackend(_))) { bad("a backend reply produced a SendToBackend".into()) }
+                    if sends.len() != 1 || sends[0].dst != client(1 + c as u8) || sends[0].payload != payload { bad(format!("SendToClient outputs = {sends:?}, expected exactly one to {} carrying {payload:?}", client(1 + c as u8))) }
+                }
+                S::Late(c) | S::Dup(c) => {
+                    m.handle_input(ManagerInput::BackendResolved { flow: flows[c], backend: "other".to_owned(), addr: b(9) }, now);
+                    let outs = drain(&mut m);
+                    if outs.iter().any(|o| matches!(o, Output::SendToBackend(_) | Output::SendToClient(_) | Output::OpenUpstream { .. })) { bad(format!("a duplicate resolution produced {outs:?}")) }
+                }
+            }
+        }
+        let mut k = depth;
+        loop {
+            if k == 0 { out(false, "sticky", format!("all {n} sequences of {depth} steps over 2 flows"), "every datagram went to its flow's own peer, once, intact".into(), REQ); }
+            k -= 1;
+            idx[k] += 1;
+            if idx[k] < steps.len() { break; }
+            idx[k] = 0;
+        }
+    }
+}
+
+fn cap() {
     let ops = [Op::New, Op::Existing, Op::SetMax(0), Op::SetMax(1), Op::SetMax(2), Op::SetMax(4), Op::AbortOldest, Op::Drain];
     let depth = 6;
     let mut idx = vec![0usize; depth];
@@ -108,5 +170,12 @@ fn main() {
             if idx[k] < ops.len() { break; }
             idx[k] = 0;
         }
+    }
+}
+
+fn main() {
+    match std::env::args().nth(1).as_deref() {
+        Some("sticky") => sticky(),
+        _ => cap(),
     }
 }
